@@ -79,12 +79,17 @@ var (
 	Budget   = 1 << 30
 )
 
-// HangError is the panic value raised when a run exceeds its call budget.
+// HangError is the panic value raised when a run exceeds its call budget (or,
+// from vsyncu, blocks for ever on a mutex).
 type HangError struct{ Calls int }
+
+// Hung is set when the run blocked for ever (vsyncu); reset by Reset.
+var Hung bool
 
 // Reset switches plan mode on with the given plan (nil: no faults) and budget.
 func Reset(p map[int]int, budget int) {
 	PlanMode, plan, Calls, Log, Fired, Budget = true, p, 0, nil, nil, budget
+	Hung = false
 }
 
 // Off leaves plan mode.
